@@ -352,3 +352,196 @@ Proof.
   - change (scan s [46; 109; 112; 52]) with (scan (sstep s 46) [109; 112; 52]).
     apply scan_plain; [exact H|discriminate|repeat constructor; lia].
 Qed.
+
+(* ------------------------------------------------------------------ renderings *)
+
+Record rend_ok (g : tok -> list Z) : Prop := {
+  ro_lit : forall c, g (TLit c) = [c];
+  ro_live : forall k, is_lit k = false -> live_text (g k);
+  ro_head : forall k, is_lit k = false -> g k <> [] /\ rooted (g k) = false }.
+
+Lemma tchar_head x : x <> [] -> Forall tchar x -> x <> [] /\ rooted x = false.
+Proof.
+  intros Hne H. split; [exact Hne|]. destruct H as [|c l [Hc _] _]; [contradiction|]. cbn [rooted]. now apply Z.eqb_neq.
+Qed.
+
+Lemma text1_ok n : valid n = true -> rend_ok (text1 n).
+Proof.
+  intros Hv. destruct (valid_parts n Hv) as (Hne & Hr & _). split.
+  - reflexivity.
+  - intros k Hk. destruct k; try discriminate; cbn [text1]; try (apply src_live; reflexivity). now apply valid_live.
+  - intros k Hk. destruct k; try discriminate; cbn [text1 tok_src rooted]; try (split; [discriminate|reflexivity]).
+    now split.
+Qed.
+
+Lemma tok_text_ok n t : valid n = true -> rend_ok (tok_text n t).
+Proof.
+  intros Hv. destruct (valid_parts n Hv) as (Hne & Hr & _). split.
+  - reflexivity.
+  - intros k Hk. destruct k; try discriminate; try (apply time_text_live; [reflexivity|discriminate]).
+    cbn [tok_text]. now apply valid_live.
+  - intros k Hk. destruct k; try discriminate; cbn [tok_text]; try (now split);
+      apply tchar_head; first [apply format_int_live | apply leading_zeros_live | apply zone_text_live].
+Qed.
+
+Lemma render_split g L r : (forall c, g (TLit c) = [c]) -> no37 L ->
+  flat_map g (tokenize (L ++ r)) = L ++ flat_map g (tokenize r).
+Proof. intros Hg HL. rewrite tokenize_lit by assumption. rewrite flat_map_app, flat_map_lit by assumption. reflexivity. Qed.
+
+Lemma tokenize_head c r : exists k ks, tokenize (c :: r) = k :: ks /\ (is_lit k = true -> k = TLit c).
+Proof.
+  unfold tokenize. cbn [tokenize_aux]. destruct (token_at (c :: r)) as [k|] eqn:E.
+  - eexists _, _. split; [reflexivity|]. intros Hl. apply token_at_some in E. destruct E as [E _]. congruence.
+  - eexists _, _. split; [reflexivity|]. reflexivity.
+Qed.
+
+Lemma render_not_rooted g f tail : rend_ok g -> rooted f = false -> rooted tail = false ->
+  rooted (flat_map g (tokenize f) ++ tail) = false.
+Proof.
+  intros [Hl _ Hh] Hf Ht. destruct f as [|c r]; [exact Ht|].
+  destruct (tokenize_head c r) as (k & ks & E & Hk). rewrite E. cbn [flat_map].
+  destruct (is_lit k) eqn:El.
+  - rewrite (Hk eq_refl), Hl. exact Hf.
+  - destruct (Hh k El) as [Hne Hr]. destruct (g k); [contradiction|exact Hr].
+Qed.
+
+Lemma ext_not_rooted ts : rooted (ext ts) = false.
+Proof. destruct ts; reflexivity. Qed.
+
+Lemma has_dd_render g f tail : rend_ok g -> has_dd f = false -> live_text tail ->
+  has_dd (flat_map g (tokenize f) ++ tail) = false.
+Proof.
+  intros [Hl Hv _] Hf Ht. apply no_dd_tokens; try assumption. now rewrite detokenize.
+Qed.
+
+Lemma no_backslash_ok s : no_backslash s = true -> Forall (fun c => c <> 92) s.
+Proof.
+  unfold no_backslash. rewrite forallb_forall, Forall_forall. intros H c Hc. specialize (H c Hc).
+  destruct (Z.eqb_spec c 92); [discriminate|assumption].
+Qed.
+
+(* the base directory and a rendered path, as cleaned absolute paths x and x/e with e free of ".." *)
+Lemma decomp g cwd f ts : rend_ok g -> format_ok f = true -> cwd_ok cwd = true ->
+  exists x e, rooted x = true /\ no37 x /\ abs cwd (common_path f) = clean x /\
+              abs cwd (flat_map g (tokenize f) ++ ext ts) = clean (x ++ 47 :: e) /\ has_dd e = false.
+Proof.
+  intros Hg Hf Hcwd. unfold format_ok in Hf. apply andb_true_iff in Hf. destruct Hf as [Hf Hc].
+  apply andb_true_iff in Hf. destruct Hf as [Hpct Hbs].
+  unfold cwd_ok in Hcwd. apply andb_true_iff in Hcwd. destruct Hcwd as [Hcwd _].
+  apply andb_true_iff in Hcwd. destruct Hcwd as [Hroot Hcpct]. apply forallb_no37 in Hcpct.
+  destruct (common_path f) as [|c0 c'] eqn:Ec.
+  - apply andb_true_iff in Hc. destruct Hc as [Hrel Hdd]. apply negb_true_iff in Hrel, Hdd.
+    exists cwd, (flat_map g (tokenize f) ++ ext ts). repeat split; try assumption.
+    + unfold abs. cbn [rooted]. now apply clean_trailing_slash.
+    + unfold abs. rewrite render_not_rooted; [reflexivity|assumption|assumption|apply ext_not_rooted].
+    + apply has_dd_render; [assumption|assumption|apply ext_live].
+  - set (c := c0 :: c') in *. apply andb_true_iff in Hc. destruct Hc as [Hc Hdd].
+    apply andb_true_iff in Hc. destruct Hc as [Hpre Hnp]. apply negb_true_iff in Hdd. apply forallb_no37 in Hnp.
+    apply is_prefix_iff in Hpre. destruct Hpre as [r Hr].
+    assert (Hskip : skipn (length c + 1) f = r).
+    { rewrite Hr. apply skipn_app_exact. rewrite app_length. reflexivity. }
+    rewrite Hskip in Hdd.
+    assert (HL : no37 (c ++ [47])) by (apply Forall_app; split; [assumption|repeat constructor; lia]).
+    assert (E : flat_map g (tokenize f) ++ ext ts = c ++ 47 :: (flat_map g (tokenize r) ++ ext ts)).
+    { rewrite Hr. rewrite render_split; [|apply Hg|exact HL]. rewrite <- !app_assoc. reflexivity. }
+    rewrite E. set (e := flat_map g (tokenize r) ++ ext ts).
+    assert (He : has_dd e = false) by (apply has_dd_render; [assumption|assumption|apply ext_live]).
+    destruct (rooted c) eqn:Hrc.
+    + exists c, e. repeat split; try assumption.
+      * unfold abs. now rewrite Hrc.
+      * unfold abs. now rewrite (rooted_app c (47 :: e) Hrc).
+    + exists (cwd ++ 47 :: c), e. repeat split; try assumption.
+      * now apply rooted_app.
+      * apply Forall_app. split; [assumption|]. constructor; [lia|assumption].
+      * unfold abs. now rewrite Hrc.
+      * unfold abs. assert (Hre : rooted (c ++ 47 :: e) = false) by exact Hrc. rewrite Hre.
+        now rewrite <- app_assoc.
+Qed.
+
+Lemma format_ok_pct f : format_ok f = true -> pct_ok f = true.
+Proof. unfold format_ok. intros H. apply andb_true_iff in H. destruct H as [H _]. apply andb_true_iff in H. tauto. Qed.
+
+(* ------------------------------------------------------------------ containment *)
+
+Theorem containment_file cwd f ts n t : valid n = true -> format_ok f = true -> cwd_ok cwd = true ->
+  path_under (abs cwd (common_path f)) (abs cwd (segment_file f ts n t)) = true.
+Proof.
+  intros Hv Hf Hc. rewrite segment_file_tokens; [|now apply format_ok_pct|now apply valid_no37].
+  unfold render. destruct (decomp (tok_text n t) cwd f ts (tok_text_ok n t Hv) Hf Hc) as (x & e & Hx & _ & -> & -> & He).
+  now apply clean_under.
+Qed.
+
+Theorem containment_expand cwd f ts n : valid n = true -> format_ok f = true -> cwd_ok cwd = true ->
+  path_under (abs cwd (common_path f)) (find_record_path cwd f ts n) = true.
+Proof.
+  intros Hv Hf Hc. unfold find_record_path. rewrite expand_tokens; [|now apply format_ok_pct|now apply valid_no37].
+  destruct (decomp (text1 n) cwd f ts (text1_ok n Hv) Hf Hc) as (x & e & Hx & _ & -> & -> & He).
+  now apply clean_under.
+Qed.
+
+Lemma path_under_prefix base p : path_under base p = true -> is_prefix base p = true.
+Proof.
+  unfold path_under. intros H. apply orb_true_iff in H. destruct H as [H|H].
+  - apply bytes_eqb_eq in H. subst. rewrite <- (app_nil_r base) at 2. apply is_prefix_app.
+  - destruct (bytes_eqb base [47]); [exact H|].
+    apply is_prefix_trans with (b := base ++ [47]); [apply is_prefix_app|exact H].
+Qed.
+
+(* what Decode accepts begins with the literal head of the format *)
+Lemma fill_lit L : forall K caps, fill (map TLit L ++ K) caps = L ++ fill K caps.
+Proof. induction L as [|c L IH]; intros K caps; [reflexivity|]. cbn [map app fill]. now rewrite IH. Qed.
+
+Lemma decode_head loff L r v res : no37 L -> decode loff (L ++ r) v = Some res -> is_prefix L v = true.
+Proof.
+  intros HL H. apply whole_name in H. destruct H as (caps & -> & _). rewrite tokenize_lit by assumption.
+  rewrite fill_lit. apply is_prefix_app.
+Qed.
+
+Theorem containment_find loff cwd f ts n v : format_ok f = true -> cwd_ok cwd = true ->
+  find_candidate loff cwd f ts n v = true -> path_under (abs cwd (common_path f)) v = true.
+Proof.
+  intros Hf Hc H. unfold find_candidate in H. apply andb_true_iff in H. destruct H as [Hv Hd].
+  destruct (decode loff (find_record_path cwd f ts n) v) as [res|] eqn:Ed; [|discriminate]. clear Hd.
+  unfold find_record_path in Ed. rewrite expand_tokens in Ed; [|now apply format_ok_pct|now apply valid_no37].
+  destruct (decomp (text1 n) cwd f ts (text1_ok n Hv) Hf Hc) as (x & e & Hx & Hx37 & -> & Hy & He).
+  rewrite Hy in Ed. destruct (clean_app_form x e Hx He) as [EB EY]. rewrite EY in Ed.
+  assert (HB : no37 (clean x)) by (apply clean_forall; [lia|lia|exact Hx37]).
+  rewrite EB in *. set (A := rev (cstack true x)) in *. set (T := filter keeps (split47 e)) in *.
+  unfold path_under. apply orb_true_iff.
+  destruct T as [|t0 T'].
+  - left. rewrite app_nil_r in Ed. rewrite <- (app_nil_r (47 :: join47 A)) in Ed.
+    pose proof Ed as Ed'. apply whole_name in Ed'. destruct Ed' as (caps & -> & _).
+    rewrite tokenize_lit by exact HB. rewrite fill_lit. cbn [tokenize tokenize_aux fill]. rewrite app_nil_r.
+    apply bytes_eqb_refl.
+  - right. destruct A as [|a0 A'].
+    + change (join47 []) with (@nil Z) in *. cbn [app] in Ed. rewrite (bytes_eqb_refl [47]).
+      change (47 :: join47 (t0 :: T')) with ([47] ++ join47 (t0 :: T')) in Ed.
+      apply decode_head in Ed; [exact Ed|repeat constructor; lia].
+    + rewrite join47_app in Ed by discriminate.
+      assert (Ed2 : decode loff (((47 :: join47 (a0 :: A')) ++ [47]) ++ join47 (t0 :: T')) v = Some res).
+      { rewrite <- app_assoc. exact Ed. }
+      apply decode_head in Ed2; [|apply Forall_app; split; [exact HB|repeat constructor; lia]].
+      destruct (bytes_eqb (47 :: join47 (a0 :: A')) [47]); [|exact Ed2].
+      apply is_prefix_trans with (b := (47 :: join47 (a0 :: A')) ++ [47]); [apply is_prefix_app|exact Ed2].
+Qed.
+
+(* ------------------------------------------------------------------ the API guard, entry points *)
+
+Theorem inside_guard cwd base cand p : inside cwd base cand = Some p ->
+  p = abs cwd (clean cand) /\ is_prefix (abs cwd (clean base)) p = true.
+Proof.
+  unfold inside. destruct (is_prefix (abs cwd (clean base)) (abs cwd (clean cand))) eqn:E; [|discriminate].
+  intros H; inversion H; subst. now split.
+Qed.
+
+Theorem delete_guarded cwd f ts found n t p : delete_segment cwd f ts found n t = DRemove p ->
+  valid n = true /\ found = true /\ is_prefix (abs cwd (clean (common_path f))) p = true.
+Proof.
+  unfold delete_segment. destruct (valid n); [|discriminate]. destruct found; [|discriminate]. cbn [negb].
+  destruct (inside cwd (common_path f) (expand_path f ts n)) as [pf|]; [|discriminate].
+  destruct (inside cwd (common_path f) (encode_go pf [] t)) as [q|] eqn:E; [|discriminate].
+  intros H; inversion H; subst. apply inside_guard in E. tauto.
+Qed.
+
+Theorem pm_accepts_valid n r : pm_accepts n r = true -> valid n = true.
+Proof. unfold pm_accepts. intros H. apply andb_true_iff in H. tauto. Qed.
